@@ -719,6 +719,11 @@ def mon_c05_probe(case, verdict, chk):
         chk.violation("C05:probe-%s" % ("panic" if case.get("panic") else "timeout"), "preparing a workflow %s in probe failure mode %s" %
                       ("panicked" if case.get("panic") else "did not return", case.get("mode")),
                       {"kind": "impl-counterexample", "case": slim(case)})
+    elif case.get("late_events", 0) > 0 or case.get("balance_at_return", 0) != 0:
+        chk.violation("C05:probe-deployment-after-return:" + str(case.get("mode")),
+                      "Prepare had returned (%s): %d temporary deployment(s) were open at that moment and %d deployment / close event(s) of "
+                      "temporary deployments happened afterwards" % (case.get("mode"), case.get("balance_at_return", 0), case.get("late_events", 0)),
+                      {"kind": "impl-counterexample", "case": slim(case)})
     elif case.get("probe_balance", 0) != 0:
         chk.violation("C05:probe-deployment-left-open:" + str(case.get("mode")),
                       "after Prepare returned (%s) %d probe deployment(s) are still open" % (case.get("mode"), case["probe_balance"]),
